@@ -177,13 +177,18 @@ func (w *world) visit(t types.Type) {
 	kind, children, fnames, ln, basic, date := w.classify(target)
 	gn := &GNode{Kind: kind, Children: []string{}, RegAs: id}
 	w.graph[id] = gn
-	switch kind {
-	case "struct", "array", "slice", "map":
-		gn.Early = true
-		gn.RegAs = w.id(target)
-	}
-	for _, c := range children {
-		gn.Children = append(gn.Children, w.id(c))
+	if target != t {
+		// an alias shares the node of the type it denotes: createType(alias) = handleType(target)
+		gn.Kind = "alias"
+		gn.Children = []string{w.id(target)}
+	} else {
+		switch kind {
+		case "struct", "array", "slice", "map":
+			gn.Early = true
+		}
+		for _, c := range children {
+			gn.Children = append(gn.Children, w.id(c))
+		}
 	}
 	key := walk.Key(t)
 	if _, has := w.oracle[key]; !has {
